@@ -52,14 +52,21 @@ def _from_state(rec):
     return c
 
 
-def validate(ctx, cases, name):
-    path = os.path.join(ctx.workdir, name)
-    with open(path, "w") as f:
-        json.dump({"cases": cases}, f)
-    r = ctx.tlc("Trace_ArcRemoval", "Trace.cfg", env={"TRACE_FILE": path}, workers=16, timeout=3400, heap="12g")
-    got = {x["cid"]: x["verdict"] for x in r.records if "verdict" in x}
-    if len(got) != len(cases):
-        raise Machinery("trace validation returned %d verdicts for %d cases" % (len(got), len(cases)))
+def validate(ctx, cases, name, chunk=50000):
+    """Trace_ArcRemoval over the cases, in chunks (each TLC worker deserialises the trace file; a 300 MB file does not fit 16 times)."""
+    got = {}
+    for lo in range(0, len(cases), chunk):
+        part = cases[lo:lo + chunk]
+        path = os.path.join(ctx.workdir, "%s.%d" % (name, lo // chunk))
+        with open(path, "w") as f:
+            json.dump({"cases": part}, f)
+        r = ctx.tlc("Trace_ArcRemoval", "Trace.cfg", env={"TRACE_FILE": path}, workers=16, timeout=3400, heap="12g")
+        os.remove(path)
+        sub = {x["cid"]: x["verdict"] for x in r.records if "verdict" in x}
+        if len(sub) != len(part):
+            raise Machinery("trace validation returned %d verdicts for %d cases" % (len(sub), len(part)))
+        for i, v in sub.items():
+            got[lo + i] = v
     return got
 
 
